@@ -7,6 +7,7 @@ CONSTANTS
   Unwrapped = {}
   DepthRestore = "wipe"
   ContextDropped = FALSE
+  CloseFailure = "logged"
 INIT Init
 NEXT Next
 INVARIANTS
